@@ -106,9 +106,15 @@ def build(clean_proofs=False):
             sh("coq_makefile -f _CoqProject -o Makefile", cwd=COQ)
         pa_dir = os.path.join(BUILD, "pa")
         os.makedirs(pa_dir, exist_ok=True)
-        for rel in v_sources():   # a property file whose Print Assumptions output is not on record is rebuilt
-            if rel.startswith("Properties/") and not os.path.exists(os.path.join(pa_dir, os.path.basename(rel)[:-2] + ".txt")):
-                sh(["rm", "-f", os.path.join(COQ, rel + "o")])
+        for rel in v_sources():   # a property file whose Print Assumptions output is not on record, or is older
+            if not rel.startswith("Properties/"):          # than its source or its compiled file, is rebuilt
+                continue
+            pa = os.path.join(pa_dir, os.path.basename(rel)[:-2] + ".txt")
+            vo = os.path.join(COQ, rel + "o")
+            stale = not os.path.exists(pa) or os.path.getmtime(pa) < os.path.getmtime(os.path.join(COQ, rel)) or \
+                (os.path.exists(vo) and os.path.getmtime(pa) < os.path.getmtime(vo))
+            if stale:
+                sh(["rm", "-f", vo])
         rc, out = sh("timeout 3000 make -k -j16 --output-sync=target 2>&1", cwd=COQ, timeout=3100)
         info["make_rc"] = rc
         info["make_log"] = out[-20000:]
